@@ -428,3 +428,50 @@ Theorem C01_fp3_loop_nest_conserves_grid :
     sumZ 0 (Z.to_nat (nb * xs * n)) D.
 Proof. exact fp3_loops_conserve_grid. Qed.
 Print Assumptions C01_fp3_loop_nest_conserves_grid.
+
+(** ** the loop nests of KickMap::apply (family st3kick).  [Gen/Gen_KickLoop.v] (translate/kickloop2coq.py, regenerated on
+    every run) holds the ranges of the four loops and the index expressions of BOTH branches of KickMap::apply; the
+    translator refuses any statement outside the idiom - any conditional but the source-cell guard, [continue], [break],
+    calls, locals that are not index arithmetic: a skipped bunch (filling pattern), a skipped or zero-filled column (cached
+    profile), a clamped value.  [kick_y_loops] / [kick_x_loops] (Model/KickLoop.v) run the nests on the output array.
+    Every cell of every bunch of the output is written - whatever the target grid held before - with the cell function
+    [apply_y_cell] / [apply_x_cell] the conservation theorems above are about; the extracted model the correspondence
+    runs is the nest. *)
+Module KickLoopFamily.
+From Inovesa Require Import Gen.Gen_KickLoop Model.KickLoop Proofs.KickLoopP.
+
+Theorem C01_kick_apply_every_cell :
+  forall nb n it (H : Z -> Z * Qc) (D out0 : Z -> Qc) b x y,
+    (0 < n)%Z -> (0 <= b < nb)%Z -> (0 <= x < n)%Z -> (0 <= y < n)%Z ->
+    kick_y_loops nb n n it (nb - 1) H D out0 (didx n b x y) = apply_y_cell n nb it H D b x y /\
+    kick_x_loops nb n n it (nb - 1) H D out0 (didx n b x y) = apply_x_cell n nb it H D b x y.
+Proof. exact kick_apply_every_cell. Qed.
+Print Assumptions C01_kick_apply_every_cell.
+
+Theorem C01_kick_apply_writes_nothing_else :
+  forall nb n it (H : Z -> Z * Qc) (D out0 : Z -> Qc) i,
+    (0 < n)%Z -> (0 <= nb)%Z -> ~ (0 <= i < nb * n * n)%Z ->
+    kick_y_loops nb n n it (nb - 1) H D out0 i = out0 i /\ kick_x_loops nb n n it (nb - 1) H D out0 i = out0 i.
+Proof. exact kick_apply_elsewhere. Qed.
+Print Assumptions C01_kick_apply_writes_nothing_else.
+
+(** same data and table, different earlier content of the target grid: same output in every cell of every bunch *)
+Theorem C01_kick_apply_target_independent :
+  forall nb n it (H : Z -> Z * Qc) (D out0 out0' : Z -> Qc) i,
+    (0 < n)%Z -> (0 <= nb)%Z -> (0 <= i < nb * n * n)%Z ->
+    kick_y_loops nb n n it (nb - 1) H D out0 i = kick_y_loops nb n n it (nb - 1) H D out0' i /\
+    kick_x_loops nb n n it (nb - 1) H D out0 i = kick_x_loops nb n n it (nb - 1) H D out0' i.
+Proof. exact kick_apply_target_independent. Qed.
+Print Assumptions C01_kick_apply_target_independent.
+
+(** the extracted executable model of the correspondence is the generated loop nest run on any target array *)
+Theorem C01_kick_model_is_loop_nest :
+  forall n nb it (offs data : list Qc) (out0 : Z -> Qc),
+    (0 < n)%Z -> (0 <= nb)%Z ->
+    kick_y_list n nb it offs data =
+      map (kick_y_loops nb n n it (nb - 1) (updateSM n it (getQ offs)) (getQ data) out0) (zrange (nb * n * n)) /\
+    kick_x_list n nb it offs data =
+      map (kick_x_loops nb n n it (nb - 1) (updateSM n it (getQ offs)) (getQ data) out0) (zrange (nb * n * n)).
+Proof. exact kick_list_is_loops. Qed.
+Print Assumptions C01_kick_model_is_loop_nest.
+End KickLoopFamily.
